@@ -24,6 +24,9 @@ pub use std::array::TryFromSliceError;
 pub assume_specification<T, F: FnOnce() -> Option<T>> [Option::<T>::or_else] (o: Option<T>, f: F) -> (r: Option<T>)
     requires o is None ==> f.requires(()),
     ensures o is Some ==> r == o, o is None ==> f.ensures((), r);
+pub assume_specification<T> [<[T]>::swap] (s: &mut [T], a: usize, b: usize)
+    requires a < old(s)@.len(), b < old(s)@.len()
+    ensures final(s)@ == old(s)@.update(a as int, old(s)@[b as int]).update(b as int, old(s)@[a as int]);
 pub assume_specification<T: Clone> [<[T]>::to_vec] (s: &[T]) -> (r: Vec<T>) ensures r@ == s@;
 pub assume_specification<T> [<[T]>::reverse] (s: &mut [T]) ensures final(s)@ == old(s)@.reverse();
 
@@ -125,3 +128,13 @@ impl StrV for String { open spec fn sv(&self) -> Seq<char> { self@ }
     #[verifier::external_body] fn to_lowercase_v(&self) -> (r: String) { unimplemented!() }
     #[verifier::external_body] fn trim_end_matches_v(&self, c: char) -> (r: &str) { unimplemented!() }
     #[verifier::external_body] fn parse_u32_v(&self) -> (r: Result<u32, ParseIntError>) { unimplemented!() } }
+// ---- Vec::splice (rule R24): replaces `range` by `items`; the returned iterator, collected, yields the removed elements ----
+pub struct SpliceV<T> { pub removed: Vec<T> }
+impl<T> SpliceV<T> { #[verifier::external_body] pub fn collect(self) -> (r: Vec<T>) ensures r@ == self.removed@ { unimplemented!() } }
+pub trait SpliceVec<T> { spec fn sp_view(&self) -> Seq<T>;
+    fn splice_v(&mut self, range: core::ops::Range<usize>, items: Vec<T>) -> (r: SpliceV<T>)
+        requires range.start <= range.end <= old(self).sp_view().len()
+        ensures final(self).sp_view() == old(self).sp_view().subrange(0, range.start as int) + items@ + old(self).sp_view().subrange(range.end as int, old(self).sp_view().len() as int),
+            r.removed@ == old(self).sp_view().subrange(range.start as int, range.end as int); }
+impl<T> SpliceVec<T> for Vec<T> { open spec fn sp_view(&self) -> Seq<T> { self@ }
+    #[verifier::external_body] fn splice_v(&mut self, range: core::ops::Range<usize>, items: Vec<T>) -> (r: SpliceV<T>) { unimplemented!() } }
